@@ -4,7 +4,6 @@ package vsync
 import (
 	"fmt"
 	"sort"
-	"sync"
 	"unsafe"
 
 	"github.com/anthdm/hollywood/zzverif/vsched"
@@ -18,7 +17,41 @@ type Locker interface {
 	Unlock()
 }
 
-type Pool = sync.Pool
+// Pool is sync.Pool with deterministic behaviour: a LIFO free list that is emptied at the start
+// of every execution (objects cached by an earlier execution must not leak into the next one,
+// or executions would no longer be reproducible). Get and Put are atomic steps.
+type Pool struct {
+	New   func() any
+	items []any
+	epoch uint64
+}
+
+func (p *Pool) Get() (v any) {
+	vsched.AtomicDo(unsafe.Pointer(p), func() (bool, uint64) {
+		if p.epoch != vsched.Epoch() {
+			p.items, p.epoch = nil, vsched.Epoch()
+		}
+		if n := len(p.items); n > 0 {
+			v = p.items[n-1]
+			p.items = p.items[:n-1]
+		}
+		return true, 0
+	})
+	if v == nil && p.New != nil {
+		v = p.New()
+	}
+	return v
+}
+
+func (p *Pool) Put(v any) {
+	vsched.AtomicDo(unsafe.Pointer(p), func() (bool, uint64) {
+		if p.epoch != vsched.Epoch() {
+			p.items, p.epoch = nil, vsched.Epoch()
+		}
+		p.items = append(p.items, v)
+		return true, 0
+	})
+}
 
 // Once is sync.Once: the first caller runs f holding the Once; later callers wait for it.
 type Once struct {
